@@ -49,6 +49,13 @@ pub struct EM {
     #[entities]
     pub e: Entity,
 }
+/// Mapped server trigger, ordered, dependent: an entity inside the event and a target.
+#[derive(Event, Serialize, Deserialize, Clone, Debug, MapEntities)]
+pub struct TM {
+    pub seq: Seq,
+    #[entities]
+    pub e: Entity,
+}
 /// Mapped client event, ordered.
 #[derive(Event, Serialize, Deserialize, Clone, Debug, MapEntities)]
 pub struct CM {
@@ -75,6 +82,7 @@ pub enum SK {
     EI,
     T1,
     TI,
+    TM,
 }
 impl SK {
     pub fn tag(self) -> u8 {
@@ -87,9 +95,9 @@ impl SK {
         !matches!(self, SK::E3)
     }
     pub fn ordered(self) -> bool {
-        matches!(self, SK::E1 | SK::EM | SK::EI | SK::T1 | SK::TI)
+        matches!(self, SK::E1 | SK::EM | SK::EI | SK::T1 | SK::TI | SK::TM)
     }
-    pub const ALL: [SK; 7] = [SK::E1, SK::E2, SK::E3, SK::EM, SK::EI, SK::T1, SK::TI];
+    pub const ALL: [SK; 8] = [SK::E1, SK::E2, SK::E3, SK::EM, SK::EI, SK::T1, SK::TI, SK::TM];
 }
 
 #[derive(Clone, Copy, Debug, PartialEq, Eq, Hash, PartialOrd, Ord, Serialize)]
@@ -270,6 +278,8 @@ pub fn register(app: &mut App) {
     ch.server.insert(SK::TI, sc(app));
     app.add_server_trigger::<TI>(Channel::Ordered)
         .make_trigger_independent::<TI>();
+    ch.server.insert(SK::TM, sc(app));
+    app.add_mapped_server_trigger::<TM>(Channel::Ordered);
 
     ch.client.insert(CK::C1, cc(app));
     app.add_client_event::<C1>(Channel::Ordered);
@@ -302,6 +312,15 @@ pub fn register(app: &mut App) {
          entities: &bevy::ecs::entity::Entities,
          mut o: ResMut<Observed>| {
             note_entity(&mut o, &t.event().0, &tick, t.target(), &map, entities, None);
+        },
+    );
+    app.add_observer(
+        |t: Trigger<TM>,
+         tick: Option<Res<ServerUpdateTick>>,
+         map: Option<Res<ServerEntityMap>>,
+         entities: &bevy::ecs::entity::Entities,
+         mut o: ResMut<Observed>| {
+            note_entity(&mut o, &t.event().seq, &tick, t.target(), &map, entities, None);
         },
     );
     app.add_observer(
@@ -803,6 +822,7 @@ impl EvCell {
                     }
                 }
                 let reference = r.and_then(|s| x.sim.alive(s));
+                let x_first_slot = x.sim.alive(0);
                 let w = x.sim.server.world_mut();
                 match kind {
                     SK::E1 => {
@@ -828,6 +848,12 @@ impl EvCell {
                         None => w.server_trigger(ToClients { mode: send_mode, event: T1(s) }),
                     },
                     SK::TI => w.server_trigger(ToClients { mode: send_mode, event: TI(s) }),
+                    SK::TM => {
+                        // the entity inside the event is the first slot (always resolvable in the
+                        // cells that use this kind), the target is the referenced slot
+                        let inside = x_first_slot.expect("TM needs e1");
+                        w.server_trigger_targets(ToClients { mode: send_mode, event: TM { seq: s, e: inside } }, reference.expect("TM needs a target"));
+                    }
                 }
                 x.emitted.push(Emitted {
                     tag: kind.tag(),
